@@ -620,6 +620,8 @@ def main():
     gen_index()
     gen_dispatch()
     gen_control()
+    import gen_solver_code
+    gen_solver_code.gen(sys.modules[__name__], lost)
     for name, why in lost:
         print(f"LOST-ANCHOR {name}: {why}")
     sys.exit(3 if lost else 0)
